@@ -26,5 +26,6 @@ macro_rules! eprintln {
 include!(concat!(env!("VERIF_REPO"), "/chiritori-cli/src/main.rs"));
 
 pub fn run() {
-    main()
+    // `main` may return (), a Result or an ExitCode
+    std::process::finish_main(main())
 }
